@@ -9,32 +9,9 @@ From stdpp Require Import gmap list.
 From RecordUpdate Require Import RecordSet.
 Import RecordSetNotations.
 From Aldrin Require Import gen.BrokerConsts Broker.Model Broker.Run.
+From Aldrin Require Export Broker.GateSpec.
 From Coq Require Import ZifyBool ZifyNat ZifyN Lia.
 Local Open Scope N_scope.
-
-(* ================================================================ the tables *)
-(* first protocol minor version in which a client may SEND the message to the broker *)
-Definition min_version_of (x : msg) : option N :=
-  match x with
-  | CallFunction2 _ _ _ _ _ => Some 19
-  | AbortFunctionCall _ => Some 16
-  | RegisterIntrospection | QueryIntrospection _ | QueryIntrospectionReply _
-  | CreateService2 _ _ _ _ | QueryServiceInfo _ _ => Some 17
-  | SubscribeService _ _ | UnsubscribeService _ | SubscribeAllEvents _ _
-  | UnsubscribeAllEvents _ _ => Some 18
-  | _ => None
-  end.
-
-(* first protocol minor version whose clients understand the message when the broker SENDS it *)
-Definition msg_min_version (x : msg) : N :=
-  match x with
-  | CallFunction2 _ _ _ _ _ => 19
-  | AbortFunctionCall _ => 16
-  | QueryIntrospectionReply _ | QueryServiceInfoReply _ _ => 17
-  | SubscribeServiceReply _ _ | SubscribeAllEvents _ _ | SubscribeAllEventsReply _ _
-  | UnsubscribeAllEvents _ _ | UnsubscribeAllEventsReply _ _ => 18
-  | _ => 14
-  end.
 
 (* the gate Model.v applies to an incoming message (from gen/BrokerConsts.v) *)
 Definition model_gate_of (x : msg) : option N :=
